@@ -491,12 +491,14 @@ def run(tier):
         "of the file budget from every stratum (seeded), refines each case to real bytes (8 value styles, hex and legacy "
         "vectors) and, for header fields, to %s of the field. %d abstract damage cases -> %d damaged files opened by "
         "engine.Open (%d opens incl. the second start), %d refused, %d repaired by truncation, %d degenerate refinements "
-        "skipped, %d length classes without a realising bit; %d/80 header bits hit; largest allocation of one Open %d MB; "
+        "skipped, %d length classes without a realising bit; %d/80 header bits hit; largest allocation of one Open %d MB, "
+        "%d opens allocated more than the file could justify; "
         "%d FormatCommand/ParseCommand and %d WriteFrame/ReadFrame round trips; %d float32 bit patterns through the hex "
         "vector codec, %d legacy decimal texts" % (
             len(corpus), len(strata), rt_states, "every bit" if cfg["all_bits"] else "%d sampled bits" % cfg["header_bits"],
             len(chosen), files, merged.get("opens", 0), merged.get("refused", 0), merged.get("truncated", 0),
             merged.get("degenerate", 0), merged.get("empty_class", 0), len(hdr_bits), merged.get("max_alloc_mb", 0),
+            merged.get("amplified", 0),
             merged.get("rt_checks", 0), merged.get("frame_checks", 0), pats, legacy))
     chk.cov["strata"] = strata
     chk.cov["files_by_damage_kind"] = merged.get("kinds", {})
